@@ -27,8 +27,7 @@ func (fr *FuncRun) heapAddrTerm(a Addr) string {
 		fn := fr.w.FAddr(x.Struct, x.Idx)
 		t := "(" + fn + " " + base + ")"
 		key := "fa:" + t
-		if !fr.assumed[key] && !hasBound(t) {
-			fr.assumed[key] = true
+		if !hasBound(t) && fr.once(key) {
 			fr.emit(fmt.Sprintf("(assert (and (= (fa_tag %s) %d) (= (fa_base %s) %s) (< %s 0) (= (fa_root %s) (ite (> %s 0) %s (fa_root %s)))))", t, fr.w.faTag(x.Struct, x.Idx), t, base, t, t, base, base, base))
 		}
 		return t
@@ -118,7 +117,7 @@ func (fr *FuncRun) load(st *State, a Addr, t types.Type) Val {
 		return Val{T: fr.def(srt, sel(bv.T, x.Idx)), S: srt}
 	case ElemOf:
 		h := w.ElemHeap(x.Elem)
-		v := Val{T: fr.def(srt, sel(sel(fr.heapCur(st, h), x.Arr), x.Idx)), S: srt}
+		v := Val{T: fr.def(srt, fr.w.At(x.Elem, sel(fr.heapCur(st, h), x.Arr), x.Off, x.I)), S: srt}
 		fr.rangeAssume(st, v.T, x.Elem)
 		return v
 	}
@@ -184,6 +183,7 @@ func (fr *FuncRun) store(st *State, a Addr, t types.Type, v Val) {
 	case CellAddr:
 		st.cells[x.Key] = v
 		fr.noteCellWrite(x.Key)
+		fr.logCellStore(x.Key, v)
 	case ObjAddr:
 		if isStruct(t) {
 			fr.storeStructAt(st, x.Ref, t, v)
@@ -262,46 +262,41 @@ func (fr *FuncRun) rangeAssume(st *State, term string, t types.Type) {
 	}
 	if bits, ok := isUnsigned(t); ok {
 		key := "rng:" + term
-		if fr.assumed[key] {
+		if !fr.once(key) {
 			return
 		}
-		fr.assumed[key] = true
 		fr.emit(fmt.Sprintf("(assert (and (<= 0 %s) (< %s %s)))", term, term, pow2(bits)))
 		return
 	}
 	switch t.Underlying().(type) {
 	case *types.Slice:
 		key := "rng:" + term
-		if fr.assumed[key] {
+		if !fr.once(key) {
 			return
 		}
-		fr.assumed[key] = true
-		fr.emit(fmt.Sprintf("(assert (and (<= 0 (s-off %s)) (<= 0 (s-len %s)) (<= (s-len %s) (s-cap %s)) (=> (= (s-arr %s) 0) (= (s-cap %s) 0))))", term, term, term, term, term, term))
+		fr.emit(fmt.Sprintf("(assert (and (<= 0 (s-arr %s)) (<= 0 (s-off %s)) (<= 0 (s-len %s)) (<= (s-len %s) (s-cap %s)) (=> (= (s-arr %s) 0) (= (s-cap %s) 0))))", term, term, term, term, term, term, term))
 	case *types.Interface:
 		key := "rng:" + term
-		if fr.assumed[key] {
+		if !fr.once(key) {
 			return
 		}
-		fr.assumed[key] = true
 		fr.emit(fmt.Sprintf("(assert (and (<= 0 (i-typ %s)) (=> (= (i-typ %s) 0) (= (i-val %s) 0))))", term, term, term))
 	case *types.Basic:
 		if t.Underlying().(*types.Basic).Info()&types.IsString != 0 {
 			key := "rng:" + term
-			if fr.assumed[key] {
-				return
-			}
-			fr.assumed[key] = true
+			if !fr.once(key) {
+			return
+		}
 			fr.emit(fmt.Sprintf("(assert (and (<= 0 (strlen %s)) (= (= (strlen %s) 0) (= %s 0))))", term, term, term))
 		}
 	case *types.Map:
 		// map length is non-negative and zero for nil
 		key := "rng:" + term
-		if fr.assumed[key] {
+		if !fr.once(key) {
 			return
 		}
-		fr.assumed[key] = true
 		ml := fr.heapCur(st, fr.w.MapLenHeap())
-		fr.emit(fmt.Sprintf("(assert (<= 0 (select %s %s)))", ml, term))
+		fr.emit(fmt.Sprintf("(assert (and (<= 0 %s) (<= 0 (select %s %s))))", term, ml, term))
 	}
 }
 
